@@ -2,7 +2,8 @@
    NewDecimalString) as of the "fix:" commits fddc329 and 5c50534.  Strings are lists of code points (list Z).
    math/big (Int.String, Int.SetString base 10, Abs, Exp, Mul), fmt's %0<w>s of a *big.Int and
    strings.TrimSpace / Split / TrimLeft / TrimRight are modelled by the definitions below (trusted,
-   cross-checked against the implementation on every run).  No proofs here. *)
+   cross-checked against the implementation on every run).  The last part is the state machine of ONE Decimal
+   object under a history of method calls and direct assignments of the exported fields.  No proofs here. *)
 From Coq Require Import ZArith List Bool.
 Import ListNotations.
 From V Require Import Base.Tree Base.Bytes.
@@ -128,3 +129,104 @@ Definition res_eqb (a b : res) : bool :=
   | Err, Err => true
   | _, _ => false
   end.
+
+(* ---------- histories on one Decimal object ----------
+   The state of a Decimal is exactly its three fields: Precision, Scale (exported, assigned directly by callers
+   such as asetypes/goValue.go and tds/field.go) and the *big.Int i (None = nil pointer, the state of a struct
+   literal Decimal{Precision: p, Scale: s}).  There is no other state: every method is a function of these. *)
+Record dstate := mk_dstate { dprec : Z; dscale : Z; dval : option Z }.
+
+Inductive op :=
+| OString                      (* d.String() *)
+| OSetString (t : str)         (* d.SetString(t) *)
+| OSetInt64 (n : Z)            (* d.SetInt64(n) *)
+| OSetBytes (b : list Z)       (* d.SetBytes(b) *)
+| ONegate                      (* d.Negate() *)
+| OPrec (p : Z)                (* d.Precision = p *)
+| OScale (s : Z)               (* d.Scale = s *)
+| OBoth (p s : Z)              (* d.Precision, d.Scale = p, s *)
+| ORead                        (* IsNegative, Int, Bytes, ByteSize, Cmp with a fresh decimal in the same state *)
+| OBad.
+
+Definition op_of_tree (t : tree) : op :=
+  match t with
+  | TL [TI c] => if c =? 0 then OString else if c =? 4 then ONegate else if c =? 8 then ORead else OBad
+  | TL [TI c; TB x] => if c =? 1 then OSetString x else if c =? 3 then OSetBytes x else OBad
+  | TL [TI c; TI n] => if c =? 2 then OSetInt64 n else if c =? 5 then OPrec n else if c =? 6 then OScale n else OBad
+  | TL [TI c; TI p; TI s] => if c =? 7 then OBoth p s else OBad
+  | _ => OBad
+  end.
+
+Definition nil_text : str := [60; 110; 105; 108; 62].   (* "<nil>" *)
+Definition panic_t : tree := TI (-1).
+
+(* Decimal.String in a state: the text, or a panic when the slice expressions s[p-s:] / s[:p-s] are out of
+   range (possible only after assignments that make Scale > Precision or Scale < 0; Precision >= 0 assumed) *)
+Definition state_string (st : dstate) : tree :=
+  match dval st with
+  | None => TB nil_text
+  | Some i =>
+      let p := dprec st in let s := dscale st in
+      let d := pad0 p (big_string (Z.abs i)) in
+      if (p - s <? 0) || (zlen d <? p - s) then panic_t else TB (dec_string p s i)
+  end.
+
+(* Decimal.ByteSize: ceil(BitLen / 8) + 1 *)
+Definition bit_len (n : Z) : Z := if n =? 0 then 0 else Z.log2 n + 1.
+Definition byte_size (i : Z) : Z := (bit_len (Z.abs i) + 7) / 8 + 1.
+
+(* one operation: what the call answers, and the state afterwards.  Methods that dereference i panic on the
+   nil state before changing anything. *)
+Definition step (st : dstate) (o : op) : tree * dstate :=
+  let p := dprec st in let s := dscale st in
+  match o with
+  | OString => (state_string st, st)
+  | OSetString t =>
+      match set_string p s t with
+      | Ok i => (TI 0, mk_dstate p s (Some i))
+      | Err => (TI 2, st)
+      end
+  | OSetInt64 n => match dval st with Some _ => (TI 0, mk_dstate p s (Some n)) | None => (panic_t, st) end
+  | OSetBytes b => match dval st with Some _ => (TI 0, mk_dstate p s (Some (be_of_bytes b))) | None => (panic_t, st) end
+  | ONegate => match dval st with Some i => (TI 0, mk_dstate p s (Some (- i))) | None => (panic_t, st) end
+  | OPrec p' => (TI 0, mk_dstate p' s (dval st))
+  | OScale s' => (TI 0, mk_dstate p s' (dval st))
+  | OBoth p' s' => (TI 0, mk_dstate p' s' (dval st))
+  | ORead =>
+      match dval st with
+      | Some i => (TL [of_bool (i <? 0); TI i; TI (Z.abs i); TI (byte_size i); TI 1], st)
+      | None => (panic_t, st)
+      end
+  | OBad => (tbad, st)
+  end.
+Definition next (st : dstate) (o : op) : dstate := snd (step st o).
+
+(* the successive states of a history *)
+Fixpoint states (st : dstate) (ops : list op) : list dstate :=
+  match ops with
+  | [] => []
+  | o :: r => next st o :: states (next st o) r
+  end.
+
+(* what the harness records after every step: the answer of the call, the fields read back, the text printed
+   by a copy of the struct (String called on "c := *d", so that observing does not count as a call on d), and
+   whether NewDecimalString(Precision, Scale, text) succeeds and Cmp's equal to d in both directions *)
+Definition val_tree (v : option Z) : tree := match v with Some i => TI i | None => TL [] end.
+Definition rt_flag (st : dstate) (text : tree) : bool :=
+  match dval st, text with
+  | Some i, TB t => res_eqb (new_decimal_string (dprec st) (dscale st) t) (Ok i)
+  | _, _ => false
+  end.
+Definition record (obs : tree) (st : dstate) : tree :=
+  TL [obs; TI (dprec st); TI (dscale st); val_tree (dval st); state_string st; of_bool (rt_flag st (state_string st))].
+Fixpoint trace (st : dstate) (ops : list op) : list tree :=
+  match ops with
+  | [] => []
+  | o :: r => record (fst (step st o)) (next st o) :: trace (next st o) r
+  end.
+
+(* how the object comes into being: 0 = NewDecimal(p, s), 1 = &Decimal{Precision: p, Scale: s} *)
+Definition init_state (kind p s : Z) : option dstate :=
+  if kind =? 0 then (if sanity p s then Some (mk_dstate p s (Some 0)) else None)
+  else if kind =? 1 then Some (mk_dstate p s None)
+  else None.
